@@ -435,6 +435,7 @@ type FuncContract struct {
 }
 
 type ContractSet struct {
+	DefaultNonNil map[string][]string // package path -> parameter names assumed/required non-nil in every contracted function
 	TypeInvs map[string][]*Clause // "pkgpath.TypeName" -> invariants over "self"
 	Specs  map[string]*SpecFunc
 	Axioms []*Axiom
@@ -446,7 +447,7 @@ type ContractSet struct {
 var clauseKeywords = map[string]bool{
 	"spec": true, "rec": true, "axiom": true, "lemma": true, "func": true, "props": true,
 	"requires": true, "ensures": true, "loop": true, "assigns": true, "pure": true, "sweep": true,
-	"trusted": true, "end": true, "at": true, "typeinv": true, "unchecked": true, "recovers": true, "panics": true, "measure": true, "use": true, "opt": true,
+	"trusted": true, "end": true, "at": true, "typeinv": true, "unchecked": true, "default-nonnil": true, "recovers": true, "panics": true, "measure": true, "use": true, "opt": true,
 }
 
 func parseParams(s string) ([]SpecParam, error) {
@@ -597,6 +598,11 @@ func (cs *ContractSet) ParseContractText(pkgPath, file, text string) error {
 				lm.Body = e
 				cs.Lemmas = append(cs.Lemmas, lm)
 			}
+		case "default-nonnil":
+			if cs.DefaultNonNil == nil {
+				cs.DefaultNonNil = map[string][]string{}
+			}
+			cs.DefaultNonNil[pkgPath] = append(cs.DefaultNonNil[pkgPath], strings.Fields(rc.rest)...)
 		case "typeinv":
 			// typeinv TypeName [tags]: expr over self
 			k := strings.Index(rc.rest, ":")
